@@ -147,6 +147,20 @@ func LoadProgram(repo string, patterns ...string) (*Program, error) {
 				if !ok || fd.Body == nil {
 					continue
 				}
+				goN := 0
+				ast.Inspect(fd.Body, func(n ast.Node) bool {
+					if g, ok := n.(*ast.GoStmt); ok {
+						if lit, ok := g.Call.Fun.(*ast.FuncLit); ok {
+							goN++
+							sig, _ := pkg.TypesInfo.TypeOf(lit).(*types.Signature)
+							if sig != nil {
+								key := fmt.Sprintf("%s.%s.go:%d", pkg.PkgPath, fd.Name.Name, goN)
+								p.Funcs[key] = &FuncInfo{Key: key, Lit: lit, Body: lit.Body, Sig: sig, Pkg: pkg}
+							}
+						}
+					}
+					return true
+				})
 				ast.Inspect(fd.Body, func(n ast.Node) bool {
 					as, ok := n.(*ast.AssignStmt)
 					if !ok || len(as.Lhs) != 1 || len(as.Rhs) != 1 {
